@@ -313,6 +313,11 @@ def run_one(sim, params):
                     if want[0] != "ok":
                         continue
                 payload = b"dg:%d:%d:%d;" % (s["id"], step, dest) + sim.bytes("ui", sim.choose("ui.len", 40), tag=step)
+                fill = sim.wpick("ui.fill", [(4, None), (2, 0), (1, 1)])
+                if fill is not None:
+                    # the largest datagrams the link carries (exactly the link MIU and one octet less)
+                    payload = payload + sim.bytes("ui.pad", max(0, link_miu - fill - len(payload)), tag=step + 1000)
+                    sim.probe("datagram.link_miu" if fill == 0 else "datagram.link_miu-1")
                 got = call(s["sock"].sendto, payload, dest, 0)
                 if s["addr"] is None:
                     s["addr"] = s["sock"].getsockname()
@@ -352,6 +357,13 @@ def run_one(sim, params):
                     sim.probe("datagram.delivered")
                 if len(delivered_to) > 1:
                     raise Violation("datagram-duplicated", "ldl", "one datagram was delivered to %d sockets" % len(delivered_to))
+                if len(ldl_t) == 1 and not delivered_to and len(payload) <= link_miu \
+                        and pair.loop_i.state != kernel.DONE and pair.loop_t.state != kernel.DONE:
+                    # every receive queue was emptied after the previous datagram, the link is up, the destination is bound
+                    raise Violation("datagram-lost", "ldl %s" % ("link-miu" if len(payload) == link_miu else "size<miu"),
+                                    "a datagram of %d octets (link MIU %d) sent to address %d, where a logical data link socket "
+                                    "is bound, was accepted by sendto() and never arrives; history %r"
+                                    % (len(payload), link_miu, dest, hist[-12:]))
                 note("sendto", "dest:%s" % ("bound" if ldl_t else "unbound"), "delivered" if delivered_to else "dropped")
             elif op == "recvfrom":
                 continue
